@@ -21,6 +21,9 @@ for d in /verif/seeded/C*-*/; do
       [ $rc -ne 0 ] && break
     done
   fi
+  # keep the first shrunk killer (a JSON replay file) next to the change: the found/ directory is wiped by the next run
+  k=$(grep '^VIOLATION' /verif/work/matrix.$id.log | sed 's/.*replay=//' | grep '\.json$' | head -1)
+  [ -n "$k" ] && [ -f "$k" ] && cp "$k" $d/killer.json
   cd /repo; git checkout -q -- .
   sigs=$(grep '^  sig=' /verif/work/matrix.$id.log | sed 's/  sig=//' | sort -u | head -6 | tr '\n' ';' | sed 's/;/; /g')
   grep '^  sig=' /verif/work/matrix.$id.log | sort -u > $d/detected.txt
